@@ -32,7 +32,7 @@ vars == <<K, L, E, hist, pst, pbad>>
 View == <<K, L, E, pst, pbad>>
 
 NoExc == Val
-Client0 == <<Frame("client", "init", 0, [ns |-> 0, exc |-> NoExc])>>
+Client0 == <<Frame("client", "init", 0, [ns |-> 0, exc |-> NoExc, ended |-> FALSE])>>
 Tag(n, kind, cl, dl) == [n |-> n, kind |-> kind, cl |-> cl, dl |-> dl]
 
 Init ==
@@ -67,7 +67,7 @@ ClientInit(t) ==
   /\ At(K, t, "client", "init")
   /\ LET q1 == ScopeEnter(K, t, FALSE, INF, E.pre[t], Tag(1, "task", 0, INF))
          fr == Top(q1, t) IN
-     K' = SetTop(q1, t, [fr EXCEPT !.pc = "choose", !.b = [ns |-> 1, exc |-> NoExc]])
+     K' = SetTop(q1, t, [fr EXCEPT !.pc = "choose", !.b = [ns |-> 1, exc |-> NoExc, ended |-> FALSE]])
   /\ Feed([ev |-> "enter", t |-> t, n |-> 1, shield |-> 0, dl |-> INF, called |-> B2I(E.pre[t]),
            kind |-> "task", nc |-> K.T[t].nc])
   /\ UNCHANGED <<L, E, hist>>
@@ -166,7 +166,7 @@ ClientChoose(t) ==
                  cc |-> CC(K, t)])
         /\ hist' = Rec(hist, H(t, "probe", 0, 0, 0))
         /\ UNCHANGED <<L, E>>
-     \/ /\ K' = SetPc([K EXCEPT !.T[t].reg = Val], t, "unwind0")
+     \/ /\ K' = SetTop([K EXCEPT !.T[t].reg = Val], t, [Top(K, t) EXCEPT !.pc = "unwind0", !.b.ended = TRUE])
         /\ hist' = Rec(hist, H(t, "end", 0, 0, 0))
         /\ UNCHANGED <<L, E, pst, pbad>>
 
@@ -214,7 +214,8 @@ ClientUnwind(t) ==
               out == IF tmo THEN Err("TimeoutError") ELSE r.reg
           IN
           /\ K' = SetPc([r.q EXCEPT !.T[t].reg = out], t,
-                        IF IsExc(out) THEN "unwind" ELSE IF ending THEN "unwind0" ELSE "choose")
+                        IF IsExc(out) THEN "unwind"
+                        ELSE IF ending \/ Top(K, t).b.ended THEN "unwind0" ELSE "choose")
           /\ Feed([ev |-> "exit", t |-> t, n |-> tag.n, ein |-> ExcName(x), eout |-> ExcName(r.reg),
                    caught |-> B2I(r.caught), called |-> B2I(K.S[t][d].called), nc |-> r.q.T[t].nc,
                    timeout |-> B2I(tmo)])
